@@ -6,6 +6,7 @@ the correspondence check diffs the two output streams.
 -/
 import Std.Data.HashMap
 import SkinnyVerif.Api.FactsBuild
+import SkinnyVerif.Impl.VecExec
 import SkinnyVerif.Spec.Skinny
 
 namespace SkinnyVerif.Driver
@@ -51,6 +52,25 @@ def setHandle (st : St) (name : String) (h : Option Handle) : St :=
   | some hd => if name = "NULL" then st else { st with hs := st.hs.insert name hd }
   | none => st
 
+/-- parallel ECB on a vector back end: the output bytes as the *translated vector code* computes them
+(`Impl/VecExec.lean`; `Properties/C07X.lean` proves them equal to the block-by-block result of the object model) -/
+def parVecOut (bd : Build) (f : Family) (enc : Bool) (w : World) (h : Option Handle) (d : Bytes) : Option Bytes :=
+  match h with
+  | some hd =>
+    match hd.vtable with
+    | .be b =>
+      match w.deref hd.ctx with
+      | .ok (_, a) =>
+        match f, a.val with
+        | .s128, .skinnyKey 64 ks =>
+          some (VecExec.par128 b bd.cfg.unaligned enc ks (if enc then ecbEncrypt (ops128 bd.tag) p128 ks else ecbDecrypt (ops128 bd.tag) p128 ks) d)
+        | .s64, .skinnyKey 32 ks =>
+          some (VecExec.par64 b bd.cfg.unaligned enc ks (if enc then ecbEncrypt (ops64 bd.tag) p64 ks else ecbDecrypt (ops64 bd.tag) p64 ks) d)
+        | _, _ => none
+      | .error _ => none
+    | _ => none
+  | none => none
+
 def retLine (r : Nat) : String := s!"ret={r}"
 
 def b2n (s : String) : Bool := s = "1"
@@ -63,8 +83,9 @@ def step (st : St) (line : String) : St × String :=
   match toks with
   | [] => (st, "")
   | ["cfg", tag, a, b, c, d] =>
-    match parseTag tag with
-    | some t => ({ st with bd := { bd with tag := t, setTweakNullOk := b2n a, parInitNullCheck := b2n b, initClearsOnFail := b2n c, initStaggers := b2n d } }, "ok")
+    -- `64le`, `32be`, …; the suffix `-u0` says the library was built with SKINNY_UNALIGNED = 0 (byte-wise vector load / store)
+    match parseTag ((tag.splitOn "-").headD "") with
+    | some t => ({ st with bd := { bd with cfg := { bd.cfg with unaligned := !(tag.splitOn "-").contains "u0" }, tag := t, setTweakNullOk := b2n a, parInitNullCheck := b2n b, initClearsOnFail := b2n c, initStaggers := b2n d } }, "ok")
     | none => (st, "bad-op")
   | ["sizes", a, b, c, d, e, f, g, h, i, j] =>
     -- the sizes the harness read off the source must be the ones the model was generated with
@@ -214,7 +235,7 @@ where
             match data with
             | none => (st, "bad-op")
             | some d => match skinnyParCrypt bd f true st.world (handleOf st n) d with
-              | .ok (r, out) => (st, s!"ret={r} out={toHex out}")
+              | .ok (r, out) => (st, s!"ret={r} out={toHex (if r = 1 then (parVecOut bd f true st.world (handleOf st n) d).getD out else out)}")
               | .error _ => fault
           else
             match ctrEncryptCall bd f st.world (handleOf st n) data with
@@ -224,7 +245,7 @@ where
       | [fam, "decrypt"] =>
         match famOf fam, ofHex (if a = "-" then "" else a) with
         | some f, some d => match skinnyParCrypt bd f false st.world (handleOf st n) d with
-          | .ok (r, out) => (st, s!"ret={r} out={toHex out}")
+          | .ok (r, out) => (st, s!"ret={r} out={toHex (if r = 1 then (parVecOut bd f false st.world (handleOf st n) d).getD out else out)}")
           | .error _ => fault
         | _, _ => (st, "bad-op")
       | _ => (st, "bad-op")
